@@ -74,7 +74,11 @@ Definition synth (s : pst) (e : event) : list label :=
   | EFsync n t v =>
       match images_upto (p_imgs (nodes s n)) t v with
       | Some k => repeat (LFsync n) k
-      | None => [LStepDown 0; LRestart 0]   (* no such image: forces a rejection (node 0 never exists) *)
+      | None =>
+          (* a write that leaves (term, vote) as they durably are (only the commit index moved) is
+             no election-layer step; otherwise no such image: forces a rejection (node 0 never exists) *)
+          if (p_dterm (nodes s n) =? t) && (p_dvote (nodes s n) =? v) then []
+          else [LStepDown 0; LRestart 0]
       end
   | ESend kind from to t =>
       if kind =? 1 then [LReleaseReq from t]
